@@ -4,6 +4,7 @@ mod filler;
 mod fixtures;
 mod props;
 mod srv;
+mod subs;
 include!(concat!(env!("OUT_DIR"), "/service_fillers.rs"));
 
 use engine::*;
